@@ -1213,14 +1213,15 @@ def rule_strings(rep, idx):
              'little-endian (at least one word, also for the empty string) and loads the label\'s address into the requested register', floor=12)
     f = idx.func('xcmp::CodeBuffer::genString')
     rep.analysed(f.sig)
-    for text in ('', 'a', 'ab', 'abc', 'abcd', 'hello w', 'sixteen chars ok.', 'twenty-one characters'):
-        for reg in ('A', 'B'):
+    for text in ('', 'a', 'ab', 'abc', 'abcd', 'hello w', 'sixteen chars ok.', 'twenty-one characters', 'q' * 127, 'q' * 128, 'q' * 200, 'q' * 255):
+        for reg in (('A', 'B') if len(text) < 100 else ('A',)):
             M = CodeGenModel(idx, reg)
             M.I.pointer_model = True
+            M.I.max_iter = max(M.I.max_iter, 2 * len(text) + 20)
             try:
                 M.I.invoke(f, M.cb, [const(32, True, M.regs[reg]), ('str', text)])
             except (NeedSplit, Thrown) as e:
-                rep.add('R6', '%r into %sreg' % (text, reg.lower()), False, pos(f.node) + ' xcmp::CodeBuffer::genString', 'fails: %s' % e)
+                rep.add('R6', '%s into %sreg' % (repr(text) if len(text) < 100 else "'q' x %d" % len(text), reg.lower()), False, pos(f.node) + ' xcmp::CodeBuffer::genString', 'fails: %s' % e)
                 continue
             data = M.data()
             words = [d for d in data if d.cls == 'hexasm::Data']
@@ -1239,7 +1240,9 @@ def rule_strings(rep, idx):
                 problems.append('address loaded into %s' % result_register(seq))
             if M.I.ub:
                 problems.append('UB %s' % M.I.ub)
-            rep.add('R6', '%r into %sreg' % (text, reg.lower()), not problems, pos(f.node) + ' xcmp::CodeBuffer::genString',
+            if len(problems) and len(text) >= 100:
+                problems = [p_[:300] for p_ in problems]
+            rep.add('R6', '%s into %sreg' % (repr(text) if len(text) < 100 else "'q' x %d" % len(text), reg.lower()), not problems, pos(f.node) + ' xcmp::CodeBuffer::genString',
                     '; '.join(problems) if problems else '%d word(s)' % len(words))
 
 
